@@ -40,6 +40,7 @@ func (c *Ctx) isNew(fn *ssa.Function) bool {
 var transparentKnown = map[string]bool{
 	"(*Parser).splitShortConcatArg": true,
 	"(*Arg).isRemaining":            true,
+	"optionIniName":                 true,
 }
 
 // inlineSite returns the unique static call site of a new function (nil if it
